@@ -40,14 +40,6 @@ def sparseStr (n : Nat) (e : List (Nat × Nat)) : String := symsStr (sparseToSym
 
 def allOk (n : Nat) (gs : List Gate) : Bool := gs.all (gateOk n)
 
-/-- classification of one error against the generators: `a` anticommutes with one of them,
-`0..3` equals `i^e ·` (a product of generators), `f` neither -/
-def klClass (n : Nat) (gs sp : List MP) (p : MP) : Char :=
-  if gs.any (fun g => MP.acomm g p) then 'a' else
-  match sp.find? (fun s => s.x == p.x && s.z == p.z) with
-  | some s => "0123".toList.getD ((p.k + 4 - s.k % 4) % 4) '?'
-  | none => let _ := n; 'F'
-
 def handle (args : List String) : String :=
   match args with
   | ["codes"] => " ".intercalate (Generated.allCodes.map fun nc => s!"{nc.1}:{nc.2.n}:{nc.2.K}:{nc.2.d}")
@@ -79,7 +71,7 @@ def handle (args : List String) : String :=
       let some c := findCode name | return "bad-op"
       if !allOk c.n c.encode || !(c.stabCircs.all (allOk c.n)) then return "bad-op"
       let cw := (List.range c.K).map (codewordTab c)
-      let rows := cw.map fun v => ",".intercalate (c.stabCircs.map fun gl => (innerA v (runTab c.n gl v)).toStr.replace "," "/")
+      let rows := cw.map fun v => ",".intercalate (c.stabCircs.map fun gl => (ipL c.n (ofArray v) (ofArray (runTab c.n gl v))).toStr.replace "," "/")
       return s!"{countH c.encode} " ++ ";".intercalate rows
   | ["ortho", name] => Id.run do
       -- Gram matrix of the model code words (upper triangle, row-major), times 2^h
@@ -87,13 +79,13 @@ def handle (args : List String) : String :=
       if !allOk c.n c.encode then return "bad-op"
       let cw := (List.range c.K).map (codewordTab c)
       let idx := List.range c.K
-      let ent := idx.flatMap fun a => (idx.filter (· ≥ a)).map fun b => (innerA (cw.getD a #[]) (cw.getD b #[])).toStr.replace "," "/"
+      let ent := idx.flatMap fun a => (idx.filter (· ≥ a)).map fun b => (ipL c.n (ofArray (cw.getD a #[])) (ofArray (cw.getD b #[]))).toStr.replace "," "/"
       return s!"{countH c.encode} " ++ ";".intercalate ent
   | ["kl", name] => Id.run do
       let some c := findCode name | return "bad-op"
       let some gs := gens c | return "none"
       let sp := span gs
-      return String.ofList ((errorList c.n c.d).map fun e => klClass c.n gs sp (MP.ofSparse e))
+      return String.ofList ((errorList c.n c.d).map fun e => klClass gs sp (MP.ofSparse e))
   | ["checks", name] => Id.run do
       let some c := findCode name | return "bad-op"
       let b2s := fun (b : Bool) => if b then "1" else "0"
